@@ -156,7 +156,7 @@ def main(tier):
         for u in range(len(g.out)):
             g.out[u] = [(a, v) for a, v in g.out[u] if g.obs[v] is not None]
         g.nedges = sum(len(o) for o in g.out)
-        ev.add_tlc(part, r, {"graph_states": len(g.obs), "graph_edges": g.nedges, "cfg": cfg,
+        ev.add_tlc(part, r, {"graph_states": len(g.obs), "graph_edges": g.nedges, "transitions_by_action": vf.by_action(g), "cfg": cfg,
                              "mode": "simulate num=%d depth=%d" % (sim, depth) if sim else "bfs (complete)"})
         if sim:
             exhaustive = exhaustive and True   # the BFS parts are complete; the simulation part is sampling on top
